@@ -60,7 +60,22 @@ KeyCases(k) ==
     O1(A, O1(k, One)) }
 Text(dummy) == UNION { StringCases(s) : s \in StrSet } \cup UNION { KeyCases(k) : k \in KeySet \ {M} }
 
-Universe == Tree(0) \cup Text(0)
+\* ---- (prim) every primitive kind of the JSON data model in every syntactic position of a primitive: null, booleans, integers
+\* (zero, negative, large), and finite numbers with a fraction / exponent, written <<"dec", m, e>> = m * 10^e (the harness builds the
+\* double nearest to that decimal and compares bit for bit): fractions below 1, negative, several digits, tiny and huge magnitudes
+Dec(m, e) == <<"dec", m, e>>
+PrimSet == { JNull, JBool(TRUE), JBool(FALSE), JInt(0), JInt(0 - 1), JInt(1000000), JInt(0 - 2147483647),
+             Dec(5, 0 - 1), Dec(0 - 5, 0 - 1), Dec(25, 0 - 2), Dec(5, 0 - 2), Dec(15, 0 - 1), Dec(0 - 275, 0 - 2), Dec(1005, 0 - 1), Dec(1, 0 - 3),
+             Dec(123456789, 0 - 3), Dec(1, 21), Dec(15, 0 - 8), Dec(25, 0 - 1) }
+PrimCases(p) ==
+  { p, Arr2(p, One), Arr2(One, p), Arr1(p), O1(KK, p),
+    Arr2(Row(KK, p, M, One), Row(KK, p, M, One)),                  \* tabular cell, first column
+    Arr2(Row(A, One, KK, p), Row(A, One, KK, p)),                   \* tabular cell, last column
+    Arr2(p, EmptyArr),                                             \* list item
+    Arr2(O1(KK, p), One) }                                         \* member of a list-item object
+Prim(dummy) == UNION { PrimCases(p) : p \in PrimSet }
+
+Universe == Tree(0) \cup Text(0) \cup Prim(0)
 None == <<"none">>
 Init == opt \in [indent : Indents, delimiter : ToonDelims, lm : Markers] /\ v = None
 Next == v = None /\ v' \in Universe /\ opt' = opt
